@@ -59,7 +59,7 @@ StrictStep ==
    /\ CASE Ev.type = "flip"  -> Flip(Ev.t, Ev.b)
         [] Ev.type = "lose"  -> Lose(Ev.t)
         [] Ev.type = "add"   -> Add(Ev.t)
-        [] Ev.type = "start" -> StartRun /\ env' = EnvOf(Ev.env)
+        [] Ev.type = "start" -> StartRun(Ev.order) /\ env' = EnvOf(Ev.env)
         [] Ev.type = "exec"  -> Exec(Ev.t, Ev.s, Ev.e)
         [] Ev.type = "end"   -> EndRun /\ env = EnvOf(Ev.env) /\ execd = [t \in Tasks |-> Ev.execd[t]]
    /\ Consume
